@@ -37,8 +37,15 @@ def _get_fd():
     return _fd
 
 
+# while a test of the world runs the test runner itself, what that inner
+# run's formatter says is not part of the outer run's history
+mute_claims = False
+
+
 def emit(kind, **fields):
     global _seq
+    if mute_claims and kind.startswith('claim.'):
+        return
     with _lock:
         fd = _get_fd()
         if fd is None:
